@@ -102,6 +102,10 @@ def gen_xof_many(rng, reps):
         for nb in range(1, 36):                   # 1..35 blocks
             for c in (0, (1 << 32) - 3, rng.choice(counters(nb))):
                 out.append("%s %d %d %d %d" % (_cvblk(rng), rng.below(65), c, rng.below(256), nb))
+        # every group shape of the 16/8/4/2/1-wide kernels straddling the 32-bit counter carry
+        for k in range(1, 18):
+            for nb in ((2, 3, 4, 5, 7, 8, 9, 12, 15, 16, 17, 24, 31, 33) if reps > 1 else (3, 4, 8, 9, 15, 16, 17, 24, 31)):
+                out.append("%s 64 %d %d %d" % (_cvblk(rng), (1 << 32) - k, rng.below(256), nb))
         for c in counters(35):
             out.append("%s 64 %d %d %d" % (_cvblk(rng), c, rng.below(256), rng.choice([1, 2, 7, 8, 15, 16, 17, 35])))
     out.append("%s 64 0 0 0" % _cvblk(rng))        # zero blocks: nothing written
